@@ -608,6 +608,59 @@ func runMalformed(r *vs.Rand, i int, seed uint64, out *vs.Out) {
 	if cfg.Customize && mr.Chance(30) {
 		target = "customize"
 	}
+	// sometimes the malformation is a null element inside a name-keyed list of the children: legal JSON that the 3-way merge
+	// meets only when the child already has that list, so a first sync applies the list without the null
+	withPorts := func(ans vs.HookAnswer, withNull bool) vs.HookAnswer {
+		var v map[string]interface{}
+		dec := json.NewDecoder(strings.NewReader(string(ans.Body)))
+		dec.UseNumber()
+		if dec.Decode(&v) != nil || v == nil {
+			return ans
+		}
+		cs, _ := v["children"].([]interface{})
+		for _, c := range cs {
+			cm, ok := c.(map[string]interface{})
+			if !ok {
+				continue
+			}
+			lst := []interface{}{map[string]interface{}{"name": "http", "port": int64(80)}, map[string]interface{}{"name": "https", "port": int64(443)}}
+			if withNull {
+				lst = []interface{}{lst[0], nil, lst[1]}
+			}
+			if sp, ok := cm["spec"].(map[string]interface{}); ok {
+				sp["ports"] = lst
+			} else {
+				cm["ports"] = lst
+			}
+		}
+		b, _ := json.Marshal(v)
+		return vs.HookAnswer{Code: ans.Code, Headers: ans.Headers, Body: b}
+	}
+	if target == "sync" && mr.Chance(12) {
+		sc.w.hook.Handler = func(name string, req map[string]interface{}) vs.HookAnswer {
+			ans := base(name, req)
+			if name == "customize" {
+				return ans
+			}
+			return withPorts(ans, false)
+		}
+		first := sc.syncOnce(i, seed)
+		first["scenario"] = "malformed"
+		out.Line(first)
+		sc.fairEnv()
+		sc.w.fillCaches()
+		sc.w.hook.Handler = func(name string, req map[string]interface{}) vs.HookAnswer {
+			ans := base(name, req)
+			if name == "customize" {
+				return ans
+			}
+			return withPorts(ans, true)
+		}
+		line := sc.syncOnce(i, seed)
+		line["scenario"] = "malformed"
+		out.Line(line)
+		return
+	}
 	sc.w.hook.Handler = func(name string, req map[string]interface{}) vs.HookAnswer {
 		ans := base(name, req)
 		if name != target && !(target == "sync" && name == "finalize") {
